@@ -8,6 +8,7 @@
 import N2V.Model.World
 import N2V.Lemmas.Work
 import N2V.Lemmas.LoadSched
+import N2V.Lemmas.WorldSettled
 namespace N2V.C02
 open N2V N2V.Work N2V.Load
 
@@ -129,5 +130,20 @@ theorem reloaded_part_changes_only_outputs (w : World) (m : Bytes) (l : Loader) 
     (fin : List (Nat × Sched.Term)) (n : Nat) :
     Within e0 (Run.buildReloaded (schedGraph e0.g) a (choices adopt perms fin) e0 n).2.1 :=
   buildReloaded_within e0 (ginv_idsOK e0.g (loadEnv_graph_ok w m l e0 h).1) _ a adopt perms fin n
+
+/-- **What is Done is settled** (the recorded state is the post-state, for whole invocations with
+    other commands running in between; projects without discovered dependencies): at the end of
+    a `run::build` that reports success without reloading, invariant `Work.JS` holds — the graph,
+    the loaded signatures and the (empty) discovered lists are as loaded; the log is the old log
+    plus one record per step that ran, each for a Done step; the stat cache tells the truth except
+    about outputs of steps not Done; the dirtying inputs of a Done step are produced by Done steps;
+    and for every Done non-phony step whose named files exist, the signature the NEXT start-up
+    will attach to it equals the manifest of the files as they are now. -/
+theorem done_steps_are_settled (e0 : Env) (inv0 : GInv e0.g) (plain : Plain e0.g) (hnd0 : ∀ b, discOf e0 b = [])
+    (hc0 : e0.cache = []) (a : Run.Args) (adopt : Bool) (perms : List (List Nat)) (fin : List (Nat × Sched.Term)) (n : Nat)
+    (h : (Run.build (schedGraph e0.g) a (choices adopt perms fin) e0).2.2 = .done n) :
+    JS e0 (Run.build (schedGraph e0.g) a (choices adopt perms fin) e0).1
+      (Run.build (schedGraph e0.g) a (choices adopt perms fin) e0).2.1 :=
+  build_done_js e0 inv0 plain hnd0 hc0 a adopt perms fin n h
 
 end N2V.C02
